@@ -88,6 +88,13 @@ func (c *c08state) afterTx(res txResult) {
 	}
 	c.rollbackSinceIssue = true
 	c.r.env.Count("probe.observed-after-rollback:" + res.kind)
+	if res.kind == "op-error" {
+		// the call itself refused (duplicate name, ...): there was no
+		// consistency check right before it, so a divergence seen now is not
+		// blamed on this rollback
+		c.observe(c.r.opKind, "")
+		return
+	}
 	c.observe(c.r.opKind, res.kind)
 }
 
